@@ -8,12 +8,14 @@ CONSTANTS
   PlusOne = FALSE
   UnsatGe = TRUE
   ImsLe = TRUE
+  ImsLocalTime = FALSE
   Tokens <- NoTokens
   MaxTokens = 0
   StartPaths <- SmallFiles
   Fbs <- NoFbOnly
   Ranges <- SmallRanges
-  Imss <- SmallIms
+  Zones <- UtcOnly
+  ImsFor <- SmallIms
 INVARIANT Containment
 INVARIANT ServedIsInside
 INVARIANT NothingElseIs404
@@ -25,3 +27,4 @@ INVARIANT ContentRangeConsistent
 INVARIANT ZeroSizeIgnoresRange
 INVARIANT UnsatCarriesSize
 INVARIANT NotModifiedNoBody
+INVARIANT DecisionIndependentOfZone
